@@ -146,8 +146,9 @@ def run_c12_seed(seed, want_sample: bool = False, config: str | None = None) -> 
                 v, hist2 = X.faulted_seq_run(case, plan, history, stats)
             else:
                 v, hist2 = X.preempt_run(case, plan, history, stats)
-                res["hsig"] += ":" + hashlib.blake2b(repr(plan.get("grants_realised")).encode(),
-                                                    digest_size=6).hexdigest()
+                res["sched_sig"] = hashlib.blake2b(repr(plan.get("grants_realised")).encode(),
+                                                   digest_size=8).hexdigest()
+                res["hsig"] += ":" + res["sched_sig"][:12]
             case["plan"] = plan
             res["faulted_digest"] = history_digest(hist2) + ":" + hashlib.blake2b(
                 repr((plan.get("grants_realised"), sorted(stats["fault_sites"].items()))).encode(),
